@@ -23,6 +23,7 @@ use std::{
     fs::{self, File, OpenOptions},
     io::{self, BufWriter, Write},
     path::{Path, PathBuf},
+    sync::atomic::{AtomicBool, Ordering},
 };
 
 #[cfg(feature = "config_parsing")]
@@ -158,6 +159,7 @@ pub struct RollingFileAppender {
     writer: Mutex<Option<LogWriter>>,
     path: PathBuf,
     append: bool,
+    opened: AtomicBool,
     encoder: Box<dyn Encode>,
     policy: Box<dyn policy::Policy>,
 }
@@ -224,13 +226,17 @@ impl RollingFileAppender {
 
     fn get_writer<'a>(&self, writer: &'a mut Option<LogWriter>) -> io::Result<&'a mut LogWriter> {
         if writer.is_none() {
+            // truncate mode discards old content at the first open only: a reopen after a
+            // failed roll must keep what has been written since
+            let first = !self.opened.swap(true, Ordering::SeqCst);
+            let append = self.append || !first;
             let file = OpenOptions::new()
                 .write(true)
-                .append(self.append)
-                .truncate(!self.append)
+                .append(append)
+                .truncate(!append)
                 .create(true)
                 .open(&self.path)?;
-            let len = if self.append {
+            let len = if append {
                 file.metadata()?.len()
             } else {
                 0
@@ -287,6 +293,7 @@ impl RollingFileAppenderBuilder {
             writer: Mutex::new(None),
             path: path.as_ref().into(),
             append: self.append,
+            opened: AtomicBool::new(false),
             encoder: self
                 .encoder
                 .unwrap_or_else(|| Box::<PatternEncoder>::default()),
